@@ -92,6 +92,11 @@ class C01(Plugin):
                   "<h1><h2>", "<dd><dt><div><dd>", "<ruby><rt><rp>", "<html a=1><html b=2><body c=3><body d=4>", "</br>", "<pre>\n\nx",
                   "<table> x <tr> y", "<table><td>a</table>b", "<svg><![CDATA[a]]></svg>", "<title>a</title><title>b", "<head></head> <!--c-->x",
                   "<body></body><!--c-->", "</html>x<!--c-->", "<font><p>a<table><font>", "<a><p><a>", "<a>1<div>2<div>3</a>4</div>5</div>",
+                  # whitespace-only tokens in cells and captions (newline after pre/listing/textarea, reconstruction);
+                  # a second table start tag in a fragment
+                  "<table><tr><td><pre>\nx</pre>", "<table><caption><textarea>\nx", "<table><tr><td><listing>\n\ny",
+                  "<table><tr><td><b><p>a</b> <i>c", "<table><caption><b><p>a</b>\n<i>c", "<table><table>x",
+                  "<table><tr><td>a<table>b", "<tr><table>x", "<table><tbody><table><tr><table>",
                   # attribute merging into html/body goes through another minidom API than element creation
                   "<p><html href=u xlink:href=#a> ", "<p><body href=u xlink:href=#a><body xlink:href=b href=c x:href=d>",
                   "<html xlink:href=a><p><html href=b a:href=c>", "<html href=u><body a:b=1><html xlink:href=v><body c:b=2 b=3>"]:
